@@ -173,6 +173,20 @@ def replay_case(hbin, case):
     return compare(impl, model, True)
 
 
+def nonblocking_variant(f):
+    """the same machine and stimulus with i2rw -> i2r and r2owa -> r2o (opcodes added to the architecture)"""
+    src = [l.replace("i2rw ", "i2r ", 1) if l.startswith("i2rw ") else l.replace("r2owa ", "r2o ", 1) if l.startswith("r2owa ") else l
+           for l in f["src"]]
+    arch = f["arch"]
+    if " ops=" not in arch:
+        return None
+    head, ops = arch.rsplit(" ops=", 1)
+    ol = set(ops.split(","))
+    used = set(x.split()[0] for x in src)
+    ol = sorted((ol | used))
+    return {"arch": head + " ops=" + ",".join(ol), "src": src, "stim": f.get("stim", []), "opt": f.get("opt", False)}
+
+
 def corpus_files():
     d = os.path.join(vlib.CORPUS, PROP)
     if not os.path.isdir(d):
@@ -241,6 +255,24 @@ def run(rep):
     })
     real = [f for f in fails if f["kind"] == "property-fails-on-impl"]
     other = [f for f in fails if f["kind"] != "property-fails-on-impl"]
+    searched_variants = 0
+    if not real and other:
+        # search for a concrete failing input near the disagreements: the instruction-level comparison
+        # of HDL and VM is only defined for one-clock programs, so re-run the disagreeing machines
+        # with their handshake instructions replaced by the non-blocking twins (same fields, same ports)
+        for f in [g for g in other if g["kind"] in ("hdl-correspondence", "sim-correspondence")][:8]:
+            v = nonblocking_variant(f)
+            if v is None:
+                continue
+            searched_variants += 1
+            try:
+                _, fs = replay_case(hbin, v)
+            except Exception:
+                continue
+            hit = [g for g in fs if g["kind"] == "property-fails-on-impl"]
+            if hit:
+                real = hit
+                break
     if real:
         f = real[0]
         rep.violation({"property": PROP, "kind": f["kind"], "arch": f["arch"], "src": f["src"], "opt": f["opt"], "stim": f["stim"],
@@ -257,8 +289,9 @@ def run(rep):
                      "destregs-differ": "model destRegs vs the register sets recorded by HLAssemblerNormalize"}
             broken.append("correspondence: " + names.get(f["kind"], f["kind"]))
         rep.violation({"property": PROP, "kind": "proof-or-correspondence-broken", "broken": broken, "first_disagreement": detail,
-                       "searched": "emitted HDL (under BMV.Vlog) vs Go VM compared after %d instructions on %d machines: no difference"
-                                   % (tot["retire_compared"], tot["machines"])}, no_failing_input=True)
+                       "searched": "emitted HDL (under BMV.Vlog) vs Go VM compared after %d instructions on %d machines, and on %d "
+                                   "one-clock variants of the disagreeing machines: no difference"
+                                   % (tot["retire_compared"], tot["machines"], searched_variants)}, no_failing_input=True)
 
 
 def replay(rep, path):
